@@ -1190,7 +1190,7 @@ fn main() {
         }
         std::process::exit(0);
     }
-    let watchdog_s: u64 = std::env::var("SIM_WATCHDOG_S").ok().and_then(|s| s.parse().ok()).unwrap_or(30);
+    let watchdog_s: u64 = std::env::var("SIM_WATCHDOG_S").ok().and_then(|s| s.parse().ok()).unwrap_or(120);
     for c in read_cases() {
         // each case on its own thread + runtime, so that a hang can be reported and skipped
         let (tx, rx) = std::sync::mpsc::channel();
